@@ -1077,6 +1077,12 @@ func init() {
 				var err error
 				unwrap, err = sm2.NewPrivateKey(st.Hex("d"))
 				kcMust(err, "wrong unwrapping key")
+			case "reencode":
+				// the SEC 1 privateKey OCTET STRING with its leading zero octets stripped (re-encoded with encoding/asn1)
+				nd := kcStripZeros(blob.fmt, der)
+				nb := *blob
+				nb.der = nd
+				der, blob = nd, &nb
 			case "inject":
 				var nb *kcBlob
 				nb, injErr = kcInject(key, blob, st.Hex("d"), st.BoolOr("neg", false))
@@ -1127,4 +1133,48 @@ func init() {
 		}
 		return nil
 	})
+}
+
+type kcSec1 struct {
+	Version       int
+	PrivateKey    []byte
+	NamedCurveOID asn1.ObjectIdentifier `asn1:"optional,explicit,tag:0"`
+	PublicKey     asn1.BitString        `asn1:"optional,explicit,tag:1"`
+}
+
+type kcP8 struct {
+	Version    int
+	Algo       pkix.AlgorithmIdentifier
+	PrivateKey []byte
+}
+
+// kcStripZeros re-encodes a SEC 1 (or PKCS#8-wrapped SEC 1) private key with the leading zero octets of the scalar removed.
+func kcStripZeros(fmtName string, der []byte) []byte {
+	strip := func(sec []byte) []byte {
+		var k kcSec1
+		rest, err := asn1.Unmarshal(sec, &k)
+		if err != nil || len(rest) != 0 {
+			kcHarness("reencode: not a SEC 1 private key: %v", err)
+		}
+		d := k.PrivateKey
+		for len(d) > 1 && d[0] == 0 {
+			d = d[1:]
+		}
+		k.PrivateKey = d
+		out, err := asn1.Marshal(k)
+		kcMust(err, "SEC 1 re-encoding")
+		return out
+	}
+	if fmtName == "SEC1" {
+		return strip(der)
+	}
+	var p kcP8
+	rest, err := asn1.Unmarshal(der, &p)
+	if err != nil || len(rest) != 0 {
+		kcHarness("reencode: not a PKCS#8 private key: %v", err)
+	}
+	p.PrivateKey = strip(p.PrivateKey)
+	out, err := asn1.Marshal(p)
+	kcMust(err, "PKCS#8 re-encoding")
+	return out
 }
